@@ -76,6 +76,11 @@ func runNC1(c *load.Ctx, r *report.RuleResult) {
 	counts := map[string]int{}
 	oneOf := c.Func(pkgBytes, "Bytes.OneOf")
 	for _, fn := range c.ModuleFunctions() {
+		// the rule is about names written in a *schema* (bare or quoted); the validators and the JSON
+		// document code see document lexemes, where null / true / false are literals, not names
+		if rel := load.FuncPkgRel(fn); rel == pkgValidator || rel == "formats/json" {
+			continue
+		}
 		for _, b := range fn.Blocks {
 			for _, ins := range b.Instrs {
 				// raw.OneOf("name", "\"name\""): both spellings of every name must be listed
